@@ -1,5 +1,5 @@
 PROP = dict(
-        pkg="c02", level="sampled",
+        pkg="c02", level="exploration",
         rule="C02: (a) generated value sequences over the whole type system x formatter settings (pretty 0/2/4, persist regexp nil/.*/^foo$) x typedef scope (per value, zsonio.Writer/FormatRecord stream, reused Formatter.Format stream) must read back identical (type bytes, value bytes, NaN=NaN; identical type pointer in the writer's context); (b) JSON texts from an RFC 8259 grammar must be read identically by zsonio.Reader and jsonio.Reader",
         assumptions=[
             "strings in the main stream are valid UTF-8 and in Unicode NFC (the ZSON reader normalises string values to NFC; non-NFC strings are examined in the opt-in test TestZSONNonNFC)",
